@@ -141,8 +141,35 @@ def c15(prop, tier, verdict):
     return 'model_checking', cov, ['alphabet of 13 whole-process operations (direct and proxied calls and pushes, backend down / cut, closed sessions, unknown route, undecodable body, handler panic, auth reject, overload reject, secure key mismatch); every history of length <= 2 (quick) / 3 (thorough) in ONE process, so a mutated shared status is seen by everything after it',
                                    'after every operation the verif accessor snapshots every package-level status; before and after every history four failing probes are repeated and their (code, msg, cause) compared']
 
+def c20(prop, tier, verdict):
+    def sig(line):
+        c = line.get('case', {})
+        return 'pool:%s:next=%s:muts=%s:%s' % (c.get('kind'), c.get('next'), '+'.join(c.get('muts') or []), 'escaped' if line.get('escaped') else 'differs')
+    cov, _ = eng_data.run(prop, tier, verdict, 'Pool', {'MaxMut': '3' if tier == 'thorough' else '2'}, sig, 1000,
+                          nontrivial=lambda c: len(c.get('muts') or []) > 0, seeds=2 if tier == 'thorough' else 1)
+    return 'exploration', cov, ['pooled kinds: socket.Message, utils.Args, pooled socket.Socket, xfer.XferPipe, handler contexts (through a live session)',
+                                'every sequence of at most 2 (quick) / 3 (thorough) mutators of the previous user, then one operation of the next user; recycling is made deterministic with GOMAXPROCS(1) and checked by pointer identity',
+                                'differential oracle: observation vector / packed bytes of the recycled object equal those of a fresh one']
+
+def c06(prop, tier, verdict):
+    import vlib
+    wd = vlib.scratch('hrecv')
+    ra = vlib.tlc_must_hold('HostileRecv', 'HostileRecv_mc.cfg', workdir=wd, workers=2, timeout=300)
+    vlib.cleanup(wd)
+    def sig(line):
+        c = line.get('case', {})
+        what = 'escaped' if line.get('escaped') else '+'.join(k for k in ('alive', 'boundok', 'stateok', 'controlok') if not line.get(k)) or 'err'
+        return 'hostile:%s:%s%s:limit=%s:%s' % (c.get('proto'), c.get('class'), ('=' + c.get('lenval')) if c.get('class') == 'lenfield' else '', c.get('limit'), what)
+    cov, _ = eng_data.run(prop, tier, verdict, 'Hostile', {}, sig, 200, seeds=3 if tier == 'thorough' else 1)
+    cov['receiver_automaton'] = 'spec/HostileRecv.tla: %d distinct states, BoundedAlloc and NoWedge hold' % ra['distinct']
+    return 'fault_enumeration', cov, ['protocols raw, json, pb, thrift-binary, http; read limits 4 KiB and 64 KiB (process-global, set per case)',
+                                      'input classes: random, zeros, every truncation of a valid frame, valid prefix + garbage, valid frame + garbage, length field at 7 boundary values, frames announcing 512 MiB / limit+1 with a few bytes following',
+                                      'allocation is observed as the TotalAlloc delta around one input with 2 MiB of slack; a process crash is reported through the driver crash path; a control session on the same peer must answer before and after every case']
+
 CHECKS = {
     'C01': c01,
+    'C06': c06,
+    'C20': c20,
     'C15': c15,
     'C19': c19,
     'C18': c18,
